@@ -110,7 +110,7 @@ def verdict (j : Json) (allTypedefs : Bool) : String :=
   else if anyCycle d.idents (d.idents.map (·.1)) then "err:identity-cycle"
   else if anyCycle d.groups (d.groups.map (·.1)) then "err:grouping-cycle"
   else if dangling d.groups d.usedGroups then "err:ref"
-  else if fault = "bad-augment-path" then "err:ref"
+  else if fault = "bad-augment-path" || fault = "uses-augment-abs" then "err:ref"
   else if (d.usedTypes.any fun t => (d.tdefs.lookup t).isNone) then "err:ref"
   else if anyCycle d.tdefs (if allTypedefs then d.tdefs.map (·.1) else d.usedTypes) then "err:typedef-cycle"
   else if fault = "ref-status" && statusViolation j then "err:status"
